@@ -1,0 +1,52 @@
+//! Verification hooks, compiled only with `--cfg csl_verif` (never in normal builds).
+//!
+//! H1: scripted replacement for the random draws of the CIP-2 random-improve coin selection.
+//! `tx_builder.rs` imports this module's `rand` under the cfg, which shadows the `rand` crate
+//! for that file only. Without a script the real thread RNG is used, so behaviour is unchanged.
+use std::cell::RefCell;
+use std::collections::VecDeque;
+
+thread_local! {
+    static SCRIPT: RefCell<Option<VecDeque<u64>>> = RefCell::new(None);
+    static DRAWS: RefCell<Vec<(u64, u64)>> = RefCell::new(Vec::new());
+}
+
+/// `Some(script)`: every following draw `gen_range(0..n)` on this thread returns `next % n`
+/// (0 once the script is exhausted). `None`: back to real randomness. Clears the draw log.
+pub fn verif_set_rng_script(script: Option<Vec<u64>>) {
+    SCRIPT.with(|s| *s.borrow_mut() = script.map(VecDeque::from));
+    DRAWS.with(|d| d.borrow_mut().clear());
+}
+
+/// The draws made since the script was set: (range size, value returned).
+pub fn verif_rng_draws() -> Vec<(u64, u64)> {
+    DRAWS.with(|d| d.borrow().clone())
+}
+
+pub mod rand {
+    pub mod rngs {
+        pub struct ThreadRng(pub(crate) ::rand::rngs::ThreadRng);
+    }
+    pub fn thread_rng() -> rngs::ThreadRng {
+        rngs::ThreadRng(::rand::thread_rng())
+    }
+    pub trait Rng {
+        fn gen_range(&mut self, range: std::ops::Range<usize>) -> usize;
+    }
+    impl Rng for rngs::ThreadRng {
+        fn gen_range(&mut self, range: std::ops::Range<usize>) -> usize {
+            let n = (range.end - range.start) as u64;
+            let scripted = super::SCRIPT.with(|s| {
+                s.borrow_mut()
+                    .as_mut()
+                    .map(|q| q.pop_front().map(|v| if n == 0 { 0 } else { v % n }).unwrap_or(0))
+            });
+            let r = match scripted {
+                Some(v) => range.start + v as usize,
+                None => ::rand::Rng::gen_range(&mut self.0, range),
+            };
+            super::DRAWS.with(|d| d.borrow_mut().push((n, r as u64)));
+            r
+        }
+    }
+}
